@@ -504,7 +504,7 @@ void profile_sortprune(const json& plan, Ctx& ctx) {
 		bool boundsChange = op == "Optimize" || op == "SaveDefault";
 		if (op == "Restart") {
 			SaveOut so = saveNif(*nif, SaveSpec());
-			auto fresh = std::make_unique<NifFile>();
+			auto fresh = restartObject(nif, ctx);
 			if (loadNif(*fresh, so.bytes).rc != 0) ctx.viol("sort:restart-load-failed", where);
 			nif = std::move(fresh);
 			ctx.fault("F-RESTART");
